@@ -61,7 +61,7 @@ EXT_FOR = {
 TARGET_STATES = ["absent", "file", "empty_folder", "nonempty_folder"]
 FLAGS = ["unset", "false", "true"]
 MATRIX_FAULTS = ["none", "plugin_entry", "open_fail_1", "open_fail_2", "torn_crash_1"]
-RESULT_NAMES = ["fit", "fit2", "fi", "refit", "fit_run_b", "fit_run_2", "fit_run_0000", "a_run_", None]
+RESULT_NAMES = ["fit", "fit2", "fi", "refit", "fit_run_b", "fit_run_2", "fit_run_0000", "a_run_", "sub/fit", None]
 RUN_PATTERN = re.compile(r".+_run_\d{4}$")
 
 MODEL_YML = """
@@ -771,7 +771,22 @@ class Run:
 
     # -- results -----------------------------------------------------------------
     def result_dirs(self, snap):
-        return sorted(k[len("proj/results/"):-1] for k in snap if k.startswith("proj/results/") and k.endswith("/") and k.count("/") == 3)
+        """Run folders below results/: every top-level folder, and nested folders named like a run."""
+        out = []
+        for k in snap:
+            if not (k.startswith("proj/results/") and k.endswith("/")):
+                continue
+            rel = k[len("proj/results/") : -1]
+            if not rel:
+                continue
+            depth = rel.count("/")
+            if depth == 0 and not any(j.startswith(k) and j.endswith("/") and j != k for j in snap):
+                out.append(rel)  # a top-level folder without sub folders
+            elif depth == 0 and re.search(r"_run_\d{4,}$", rel):
+                out.append(rel)
+            elif depth == 1 and re.search(r"_run_\d{4,}$", rel):
+                out.append(rel)
+        return sorted(out)
 
     def op_project_optimize(self, op, project, before, final=False):
         rec = self.rec
@@ -806,6 +821,8 @@ class Run:
             return
         # nothing outside the new folder(s) may change
         bad = self.changed(before, after, [f"proj/results/{d}" for d in new_dirs])
+        # the parent folder of a nested result name may be created on the way
+        bad = [k for k in bad if not (k.endswith("/") and k not in before and any(f"proj/results/{d}/".startswith(k) for d in new_dirs))]
         if bad:
             rec.violate("C18/earlier-results-changed", "accumulation", f"{tag}: changed {bad}")
             return
